@@ -587,7 +587,7 @@ class Interp:
             n = 0
             while self.truth(self.eval(st.test, fr), st.test):
                 n += 1
-                if n > 64:
+                if n > getattr(self, 'max_while', 64):
                     raise Undecided('while loop does not terminate abstractly (line %d)' % st.lineno)
                 try:
                     self.exec_block(st.body, fr)
@@ -649,6 +649,37 @@ class Interp:
                     fr.vars[al.asname or al.name] = self.global_name(target, al.name, st)
                 else:
                     fr.vars[al.asname or al.name] = Prim(al.name)
+        elif isinstance(st, ast.Delete):
+            for t in st.targets:
+                if isinstance(t, ast.Subscript):
+                    obj = self.eval(t.value, fr)
+                    if isinstance(t.slice, ast.Slice) and isinstance(obj, ListV) and t.slice.step is None:
+                        lo = self.eval(t.slice.lower, fr) if t.slice.lower is not None else NONE
+                        hi = self.eval(t.slice.upper, fr) if t.slice.upper is not None else NONE
+                        if not (isinstance(lo, Const) and isinstance(hi, Const)):
+                            raise Undecided('del with symbolic slice (line %d)' % st.lineno)
+                        del obj.items[lo.v:hi.v]
+                        continue
+                    idx = self.eval(t.slice, fr)
+                    if isinstance(obj, ListV) and isinstance(idx, Const) and isinstance(idx.v, int):
+                        try:
+                            del obj.items[idx.v]
+                        except IndexError:
+                            raise Raised('IndexError: list assignment index out of range', st.lineno)
+                        continue
+                    if isinstance(obj, DictV):
+                        for i_, (kk, vv) in enumerate(obj.items):
+                            if DictV._same_key(kk, idx):
+                                del obj.items[i_]
+                                break
+                        else:
+                            raise Raised('KeyError: %s' % _prov(idx), st.lineno)
+                        continue
+                    raise Undecided('del on %r (line %d)' % (obj, st.lineno))
+                elif isinstance(t, ast.Name):
+                    fr.vars.pop(t.id, None)
+                else:
+                    raise Undecided('del target %s (line %d)' % (type(t).__name__, st.lineno))
         elif isinstance(st, ast.Global):
             fr.globals_declared = getattr(fr, 'globals_declared', set()) | set(st.names)
         elif isinstance(st, (ast.Import, ast.ImportFrom)):
@@ -733,13 +764,20 @@ class Interp:
                     return TypeV(r[1].name)
                 if r[0] == 'const':
                     # module-level assignments are evaluated at import time: before any rebinding of globals, and
-                    # reads of mutable foreign state (sys.stdout) are snapshots, not call-time reads
+                    # reads of mutable foreign state (sys.stdout) are snapshots, not call-time reads.  One object per
+                    # defining assignment, whichever module imports the name (``doc is NIL`` is an identity test).
+                    dk = ('#def', r[1].name if r[1] is not None else None, id(r[2]))
+                    if dk in self._const_cache:
+                        return self._const_cache[dk]
                     fr = Frame(None, r[1], None)
                     self._import_time += 1
                     try:
-                        return self.eval(r[2], fr)
+                        v_ = self.eval(r[2], fr)
                     finally:
                         self._import_time -= 1
+                    if not isinstance(v_, FuncV):
+                        self._const_cache[dk] = v_
+                    return v_
                 if r[0] == 'external':
                     short = r[1].split('.')[-1]
                     if short in BUILTIN_TYPES or short in ('SimpleNamespace', 'ModuleType', 'FunctionType', 'BuiltinFunctionType'):
@@ -1100,6 +1138,10 @@ class Interp:
             hi = self.eval(n.slice.upper, fr) if n.slice.upper is not None else NONE
             if isinstance(obj, (ListV, TupleV)) and isinstance(lo, Const) and isinstance(hi, Const) and n.slice.step is None:
                 return type(obj)(obj.items[lo.v:hi.v])
+            if isinstance(obj, (ListV, TupleV)) and isinstance(lo, Const) and isinstance(hi, Const) and n.slice.step is not None:
+                st_ = self.eval(n.slice.step, fr)
+                if isinstance(st_, Const) and isinstance(st_.v, int) and st_.v != 0:
+                    return type(obj)(obj.items[lo.v:hi.v:st_.v])
             if isinstance(obj, Const) and isinstance(obj.v, (str, bytes, tuple)) and isinstance(lo, Const) and isinstance(hi, Const) and n.slice.step is None:
                 try:
                     return _wrap_py(obj.v[lo.v:hi.v])
@@ -1760,6 +1802,26 @@ class Interp:
             except TypeError as e:
                 raise Raised('TypeError: %s' % e, getattr(n, 'lineno', 0))
         return Sym('min(%s)' % ','.join(_prov(x) for x in a), 'int')
+
+    def p_round(self, a, k, n):
+        if all(isinstance(x, Const) for x in a) and not k:
+            try:
+                return Const(round(*[x.v for x in a]))
+            except (TypeError, ValueError, OverflowError) as e:
+                raise Raised('%s: %s' % (type(e).__name__, e), getattr(n, 'lineno', 0))
+        return Sym('round(%s)' % ','.join(_prov(x) for x in a), 'int')
+
+    def p_copy(self, a, k, n):
+        v = a[0]
+        if isinstance(v, ListV):
+            return ListV(list(v.items))
+        if isinstance(v, DictV):
+            return DictV(list(v.items))
+        if isinstance(v, SetV):
+            return SetV(list(v.items))
+        if isinstance(v, (Const, TupleV)):
+            return v
+        raise Undecided('copy of %r' % (v,))
 
     def p_max(self, a, k, n):
         if all(isinstance(x, Const) for x in a):
